@@ -206,7 +206,6 @@ func TestC20(t *testing.T) {
 	}
 }
 
-
 // waitOrHang waits for the free-running goroutines of one round; a round takes milliseconds, so one that is
 // still running after two minutes is stuck (deadlock): report it instead of sitting out the test timeout.
 func waitOrHang(wg *sync.WaitGroup) {
